@@ -1,5 +1,5 @@
 #!/usr/bin/env python3
-"""usage: keep_seed.py <ID> <caught_by> <detected: yes|no|after-strengthening> [note]
+"""usage: keep_seed.py <ID> <caught_by> <detected: yes|no|after-strengthening> [note] [name under seeded/] [source dir]
 copies /tmp/seed_<ID>/{patch.diff,demo.py,meta.json} into /verif/seeded/<ID>/ and records what was run."""
 import json, shutil, sys
 from pathlib import Path
@@ -7,7 +7,7 @@ from pathlib import Path
 sid, caught_by, detected = sys.argv[1:4]
 note = sys.argv[4] if len(sys.argv) > 4 else ""
 name = sys.argv[5] if len(sys.argv) > 5 else sid
-src = Path(f"/tmp/seed_{sid}")
+src = Path(sys.argv[6]) if len(sys.argv) > 6 else Path(f"/tmp/seed_{sid}")
 dst = Path(f"/verif/seeded/{name}")
 dst.mkdir(parents=True, exist_ok=True)
 for f in ("patch.diff", "demo.py"):
